@@ -585,7 +585,11 @@ PERTURB_VALUES = {
     'preamble_indent': [0, 1, 4, 9],
     'preamble_line_endings': ['unix', 'dos'],
     'preamble_mimetype': ['text/plain', 'text/markdown'],
-    'meta': [{'z': 1}, {'z': 2}, {'z': [1, {'y': None}]}, {}],
+    'meta': [{'z': 1}, {'z': 2}, {'z': [1, {'y': None}]}, {},
+             # equal as JSON documents, different as Python values
+             {'z': [1, 2]}, {'z': {trees.AS_TUPLE: [1, 2]}},
+             {'n': {'1': 'v'}}, {'n': {trees.INT_KEYS: {'1': 'v'}}},
+             {'z': 1.0}, {'z': True}],
     'meta_encoding': ['utf-8', 'utf-32'],
     'meta_format': ['json'],
     'diff': [b'x\n', b'y\n', b''],
